@@ -100,7 +100,7 @@ def judge_wire(T, ctx, pub, wire, payloads, rets, extra_ok=()):
                what="the wire does not carry exactly one intact frame per send call")
         return False
     for i, p in enumerate(payloads):
-        exp = 2 + (0 if len(p) < 126 else 2) + 4 + len(p)
+        exp = 2 + (0 if len(p) < 126 else 2 if len(p) < 65536 else 8) + 4 + len(p)
         if rets is not None and rets.get(i) != exp:
             T.fail("spec", pub, f"send() returns {exp}", str(rets.get(i)), {"site": "send_frame", "cls": "return-value"})
             return False
@@ -150,6 +150,18 @@ def run(ctx):
                 T.fail("spec", pub, "no exception", str(res["errors"])[:300], {"site": "send", "cls": "exception-in-thread"})
                 break
             if judge_wire(T, ctx, pub, res["wire"], payloads, res["rets"]) is False:
+                break
+    # a frame larger than any internal piece size (64 KiB) racing with a small one, under short writes
+    from sim.sock import lcg_bytes
+    big = [lcg_bytes(70000, 3), b"BB", b"C"]
+    for cycle in ((40000,), (65536, 1), (1000000,)):
+        for prefix, trace, res in explore(lambda p: run_senders(p, big, cycle), 2, 40 if ctx.tier == "quick" else 400):
+            pub = {"kind": "senders", "payloads": ["lcg:70000,3", "4242", "43"], "accept_cycle": list(cycle), "schedule": list(prefix)}
+            T.case(("sendbig", cycle, tuple(pk for _, pk, _ in trace)), nontrivial=preemptions(trace) > 0, bucket="senders-big-frame")
+            if res["errors"]:
+                T.fail("spec", pub, "no exception", str(res["errors"])[:300], {"site": "send", "cls": "exception-in-thread"})
+                break
+            if judge_wire(T, ctx, pub, res["wire"], big, res["rets"]) is False:
                 break
     # random schedules beyond the bound
     for _ in range(100 if ctx.tier == "quick" else 3000):
@@ -231,7 +243,8 @@ def search(ctx):
 def replay(ctx, sc):
     T = Tally()
     if sc.get("kind") == "senders":
-        payloads = [bytes.fromhex(p) for p in sc["payloads"]] if "payloads" in sc else [bytes([65 + i]) * (1 + i) for i in range(sc["threads"])]
+        from sim.sock import lcg_bytes
+        payloads = [lcg_bytes(*map(int, p[4:].split(","))) if p.startswith("lcg:") else bytes.fromhex(p) for p in sc["payloads"]] if "payloads" in sc else [bytes([65 + i]) * (1 + i) for i in range(sc["threads"])]
         trace, res = run_senders(tuple(sc["schedule"]), payloads, tuple(sc.get("accept_cycle", (1,))))
         judge_wire(T, ctx, sc, res["wire"], payloads, res["rets"])
         return T.failures[0] if T.failures else None
